@@ -383,6 +383,14 @@ func init() {
 		if tier == "thorough" {
 			js = append(js, syncJobs("c07", "ZZ_C07_Sync", []seqCfg{{"bs_max1.s2", 0, 0, 1, 1}, {"bs_max2.s2", 0, 0, 1, 2}}, 2)...)
 		}
+		// deadlines moved by reads (access-reset expiry), symbolic clock: an Expiration report only once the exact deadline passed
+		smid := 3
+		scfgs := []seqCfg{{"be_accessing", 3, 0, 0, 0}}
+		if tier == "thorough" {
+			smid = -1
+			scfgs = append(scfgs, seqCfg{"be_custom", 4, 0, 0, 0}, seqCfg{"be_writing", 2, 0, 0, 0})
+		}
+		js = append(js, symJobs("c07", "ZZ_C07_Sym", scfgs, smid, 1)...)
 		js = append(js, policyJobs("c07", tier)...)
 		// "Expiration only if the deadline had passed", at the level of the timer wheel: one level's sweep from an arbitrary
 		// placement-consistent state (C13's sweep lemma; the label of interest here is c13.sweep.fires_only_expired)
